@@ -12,6 +12,8 @@ PID = "C13"
 THEOREMS = ['C13_is_loading_iff_pending', 'C13_global_loading_iff', 'C13_is_loading_chain', 'C13_report_depends_on_pending_set',
             'C13r_blocking_returns_when_finished', 'C13r_blocking_never', 'C13r_blocking_content', 'C13r_stream_once', 'C13r_stream_parent_first',
             'C13r_stream_script_never_fails', 'C13r_stream_live', 'C13r_stream_equals_blocking',
+            'C13x_translation_conservative', 'C13x_dynamic_blocks_transparent', 'C13x_transition_is_boundary', 'C13x_until_contributes_nothing',
+            'C13x_flip_when_after', 'C13x_stream_equals_blocking',
             'C13s_boundary_loading_iff_resource_loading', 'C13s_boundary_loading_iff_latest_outstanding']
 
 
@@ -101,7 +103,7 @@ def main(argv):
                 "ALL orders in which the awaits complete when there are <= 5 of them (sampled to 40 per tree in quick); is_loading of every "
                 "boundary (both scope.is_loading() and use_is_loading()) after every step; non-trivial = a schedule during which some boundary "
                 "was loading only because of an enclosing boundary; distinct = distinct (tree, schedule)")
-    ok, msg = vlib.proof_step(chk, "C13+C13s", ["theories/Props/C13.vo", "theories/Props/C13s.vo"], THEOREMS)
+    ok, msg = vlib.proof_step(chk, "C13+C13s+C13x", ["theories/Props/C13.vo", "theories/Props/C13s.vo", "theories/Props/C13x.vo"], THEOREMS)
     broken = [] if ok else ["theorem: " + msg]
     okb, outb, binp = vlib.cargo_build("futures-driver")
     chk.obligation("cargo build futures-driver against /repo", okb, outb)
@@ -153,7 +155,7 @@ def main(argv):
         chk.violation({"property": PID, "broken": "ssr-driver run", "detail": str(e)}, no_input=True)
         return chk.finish()
     rmodel = None
-    vlib.coq_make(["theories/Async/Stream.vo"])
+    vlib.coq_make(["theories/Async/StreamX.vo"])
     try:
         rmodel = susrender.run_model(PID + "r", rcases)
     except RuntimeError as e:
@@ -161,9 +163,9 @@ def main(argv):
         chk.obligation("model evaluation (Stream.v)", False, str(e))
     if ok:
         try:
-            hyp = vlib.coq_eval(PID + "h", susrender.PRE + "Require Syc.Async.StreamFacts.\n",
+            hyp = vlib.coq_eval(PID + "h", susrender.PRE + "Require Syc.Async.StreamFacts.\nFrom Syc Require Import Async.StreamX.\n",
                                 ["Common.Show.show_nat (List.length (List.filter (fun vs => negb (Syc.Async.StreamFacts.uniq_idsb vs && Syc.Async.StreamFacts.no_top_asyncb vs)) %s))"
-                                 % vlib.glist([vlib.glist([susrender.cq(v) for v in susrender.model_view(vs)]) for vs, _ in rcases])])
+                                 % vlib.glist(["(Syc.Async.StreamX.wrap %s)" % vlib.glist([susrender.cqx(v) for v in vs]) for vs, _ in rcases])])
             chk.obligation("hypotheses of the streaming theorems (unique boundary ids, no async component outside the boundaries) hold for the %d generated views" % len(rcases),
                            hyp == ["0"], "views outside the hypotheses: " + str(hyp))
         except RuntimeError as e:
